@@ -301,7 +301,7 @@ func findColumnInFieldList(selectCol sql.ColumnReference, resultCols storage.Fie
 }
 
 func aggregateRows(selectList sql.SelectList, groupBy []sql.ColumnReference, rows []*storage.Row) ([]*storage.Row, error) {
-	if !selectList.HasAggrFunc() {
+	if !selectList.HasAggrFunc() && len(groupBy) == 0 {
 		return rows, nil
 	}
 
